@@ -59,9 +59,14 @@ UNITS = [
     leaf('merge_handle', 'sp_merge_handle', r'^cocls::suspend_point<void>::operator<<\(std::__n4861::coroutine_handle<void>&&\)$', {'std_copy': NAMES['std_copy']}, replace=['std_copy'], boundary=[r'^void\*\* std::copy<void\*\*']),
     leaf('end', 'sp_end', r'^cocls::suspend_point<void>::end\(\) const$'),
 ]
+# the members that hand the coroutines to the scheduler are specified together with the ready queue (C05) and are part of this property too
+import importlib.util as _ilu, os as _os
+_s = _ilu.spec_from_file_location('c05_units', _os.path.join(_os.path.dirname(_os.path.dirname(_os.path.abspath(__file__))), 'C05', 'units.py')); _m = _ilu.module_from_spec(_s); _s.loader.exec_module(_m)
+UNITS += [u for u in _m.UNITS if u['name'] in ('suspend_now', 'clear', 'dtor', 'await_suspend')]
+
 META = dict(
     level='proof',
-    level_text='Every loop-free member of suspend_point<void> and the typed variants is verified against a position-wise contract (ghost index) for every count < 2^28, every capacity and both representations, including the inline->heap transition and every doubling inside add(); allocation balance is a postcondition. The merging loop of operator<< is NOT proved: it is checked by bounded execution of the real body on concrete shapes up to the 40 handles of the property statement and reported separately as bounded. suspend_now/clear/destructor/await_suspend are under contract in C05 (they involve the ready queue).',
+    level_text='Every loop-free member of suspend_point<void> and the typed variants is verified against a position-wise contract (ghost index) for every count < 2^28, every capacity and both representations, including the inline->heap transition and every doubling inside add(); allocation balance is a postcondition. The merging loop of operator<< is NOT proved: it is checked by bounded execution of the real body on concrete shapes up to the 40 handles of the property statement and reported separately as bounded. suspend_now/clear/destructor/await_suspend(coroutine mode) are proved against contracts over the abstract ready queue (shared with C05): every handle is queued or resumed exactly once, in order, the block is released once, an emptied/moved-from suspend point resumes nothing.',
     level_note='Trusted: clang front end, ir2c translation, heap primitive (operator new[]/delete[] = malloc/free + counters), assumed element-wise contract of std::copy<void**>. Arithmetic bound count < 2^28 is a stated precondition. Bounded units never count as discharged.',
     technique='CBMC code contracts (requires/ensures/assigns/frees) enforced per function via goto-instrument --dfcc on the C translation of clang IR of the real header; bounded unwinding stand-in for the merge loop',
     trusted_base=['assumed contract: std::copy<void**> copies element-wise (specs/C06/sp_spec.h)'],
